@@ -18,6 +18,8 @@ pub struct FnSpec {
     pub after_let: Vec<(String, String)>,
     pub ret_hint: String,
     pub loops: BTreeMap<usize, String>,
+    pub no_autopost: bool,
+    pub cfg: Option<String>,
     pub props: Vec<String>,
     pub kind_props: BTreeMap<String, Vec<String>>,
     raw_requires: String,
@@ -27,7 +29,7 @@ pub struct FnSpec {
 #[derive(Debug)]
 pub enum Take {
     Item { kind: String, name: String },
-    Impl { header: String, fns: Vec<String>, inherent_as: Option<(String, String)> },
+    Impl { header: String, fns: Vec<String>, inherent_as: Option<(String, String)>, self_as: Option<String> },
 }
 
 #[derive(Default)]
@@ -37,10 +39,14 @@ pub struct Unit {
     pub inside: Vec<String>,
     pub imports: Vec<String>,
     pub sources: Vec<(String, Vec<Take>)>,
+    pub source_feature: Vec<Option<String>>,
     pub fns: BTreeMap<String, FnSpec>,
     pub refcell_mut_fns: Vec<String>,
+    pub refcell_mut_unless: Vec<(String, String)>,
     pub refcell_fields: Vec<String>,
     pub outline_contains: Vec<String>,
+    pub ghost_fields: Vec<(String, String, String, String, String)>, // struct, feature, name, type, init
+    pub ghost_args: Vec<(String, String, String)>, // feature, method, extra argument
     pub props: Vec<String>,
 }
 
@@ -96,7 +102,7 @@ fn parse_tagged(c: &str, default: &[String]) -> Clause {
     let t = c.trim();
     if let Some(rest) = t.strip_prefix('@') {
         let (tags, body) = rest.split_once(char::is_whitespace).unwrap_or((rest, ""));
-        return Clause { text: body.trim().to_string(), props: tags.split(',').map(|s| s.trim().to_string()).filter(|s| !s.is_empty()).collect() };
+        return Clause { text: body.trim().to_string(), props: tags.split('+').map(|s| s.trim().to_string()).filter(|s| !s.is_empty()).collect() };
     }
     Clause { text: t.to_string(), props: default.to_vec() }
 }
@@ -137,10 +143,11 @@ pub fn parse_unit(text: &str) -> Unit {
                 if let Some(rest) = t.strip_prefix("take ") {
                     if let Some(r) = rest.strip_prefix("impl ") {
                         let (hdr, fns) = r.split_once(" : ").expect("impl take needs ' : '");
+                        let (hdr, self_as) = match hdr.split_once(" => ") { Some((a, b)) => (a, Some(b.trim().to_string())), None => (hdr, None) };
                         let (fnlist, inh) = match fns.split_once(" as ") { Some((a, b)) => (a, Some(b.trim().to_string())), None => (fns, None) };
                         let fns: Vec<String> = fnlist.split_whitespace().map(|s| s.to_string()).collect();
                         let inherent_as = inh.map(|n| { let (ty, nm) = n.split_once("::").unwrap(); (ty.to_string(), nm.to_string()) });
-                        takes.push(Take::Impl { header: norm(hdr), fns, inherent_as });
+                        takes.push(Take::Impl { header: norm(hdr), fns, inherent_as, self_as });
                     } else {
                         let (kind, name) = rest.split_once(' ').unwrap();
                         takes.push(Take::Item { kind: kind.to_string(), name: name.trim().to_string() });
@@ -157,12 +164,18 @@ pub fn parse_unit(text: &str) -> Unit {
             "include" => u.pre.push(rest.trim().to_string()),
             "include-verus" => u.inside.push(rest.trim().to_string()),
             "import" => u.imports.push(rest.trim().to_string()),
-            "source" => { cur_fn = None; u.sources.push((rest.trim().to_string(), vec![])); }
+            "source" => { cur_fn = None; u.sources.push((rest.trim().to_string(), vec![])); u.source_feature.push(None); }
+            "source-if" => { cur_fn = None; let (f, p) = rest.trim().split_once(' ').unwrap(); u.sources.push((p.trim().to_string(), vec![])); u.source_feature.push(Some(f.to_string())); }
             "refcell-mut" => u.refcell_mut_fns.extend(rest.split_whitespace().map(|s| s.to_string())),
+            "ghost-field" => { let v: Vec<&str> = rest.split_whitespace().collect(); u.ghost_fields.push((v[0].into(), v[1].into(), v[2].into(), v[3].into(), v[4..].join(" "))); }
+            "ghost-arg" => { let v: Vec<&str> = rest.split_whitespace().collect(); u.ghost_args.push((v[0].into(), v[1].trim_start_matches("*.").into(), v[2..].join(" "))); }
             "outline-contains" => u.outline_contains.extend(rest.split_whitespace().map(|s| s.to_string())),
+            "refcell-mut-unless" => { let mut it = rest.split_whitespace(); let feat = it.next().unwrap().to_string(); for f in it { u.refcell_mut_unless.push((feat.clone(), f.to_string())); } }
             "refcell-field" => u.refcell_fields.extend(rest.split_whitespace().map(|s| s.to_string())),
             "fn" => { cur_fn = Some(rest.trim().to_string()); section = None; u.fns.insert(rest.trim().to_string(), FnSpec::default()); }
             "ret" => { u.fns.get_mut(cur_fn.as_ref().unwrap()).unwrap().ret = Some(rest.trim().to_string()); }
+            "cfg" => { u.fns.get_mut(cur_fn.as_ref().unwrap()).unwrap().cfg = Some(rest.trim().to_string()); }
+            "no-autopost" => { u.fns.get_mut(cur_fn.as_ref().unwrap()).unwrap().no_autopost = true; }
             "end" => { cur_fn = None; section = None; }
             "before-call" => { u.fns.get_mut(cur_fn.as_ref().unwrap()).unwrap().before_call.push((norm(rest), String::new())); section = Some(line.to_string()); }
             "after-call" => { u.fns.get_mut(cur_fn.as_ref().unwrap()).unwrap().after_call.push((norm(rest), String::new())); section = Some(line.to_string()); }
